@@ -319,6 +319,30 @@ func genSpec(rt *rapid.T, t schema.Type, v *aval.V) []string {
 		}
 		spec = append(spec, d)
 	}
+	// a wildcard entry and a named entry at the same map level (`m/*/x` next to `m/key/y`): both apply to `m/key`
+	if len(cands) > 0 && rapid.IntRange(0, 3).Draw(rt, "wild_and_named") == 0 {
+		a := cands[pick(rt, len(cands), "wn_a")]
+		star := -1
+		walkKinds(t, a, func(i int, kind string) {
+			if kind == "mapkey" && star < 0 && i < len(a)-1 {
+				star = i
+			}
+		})
+		if star >= 0 {
+			wild := append([]string(nil), a...)
+			wild[star] = "*"
+			spec = append(spec, strings.Join(wild, "/"))
+			// a named sibling below the same key with another continuation (or one that names nothing)
+			named := append(append([]string(nil), a[:star+1]...), "nosuch")
+			for _, b := range cands {
+				if len(b) > star+1 && strings.Join(b[:star+1], "/") == strings.Join(a[:star+1], "/") && strings.Join(b, "/") != strings.Join(a, "/") {
+					named = append([]string(nil), b...)
+					break
+				}
+			}
+			spec = append(spec, strings.Join(named, "/"))
+		}
+	}
 	return spec
 }
 
